@@ -41,6 +41,8 @@ fn app() -> App<()> {
             Response::new(StatusCode::OK, "own").with_header(HeaderType::Server, "mine").with_header(HeaderType::Connection, "Close")
         })
         .with_stateless_route("/cors*", |_r: Request| async { Response::new(StatusCode::OK, "c") })
+        .with_stateless_route("/wild*", |_r: Request| async { Response::new(StatusCode::OK, "w") })
+        .with_cors_config("/wild*", Cors::wildcard())
         .with_stateless_route("/slow*", |r: Request| async move {
             let ms: u64 = r.query.strip_prefix("ms=").and_then(|s| s.parse().ok()).unwrap_or(400);
             tokio::time::sleep(Duration::from_millis(ms)).await;
